@@ -285,6 +285,8 @@ class ExprMixin:
                 return x
 
             a, b = unopt(a), unopt(b)
+            if isinstance(a, SV) and isinstance(b, SV) and isinstance(a.ty, TList) and isinstance(b.ty, TList):
+                return self.list_concat(a, b)
             if isinstance(a, (tuple, list)) and isinstance(b, (tuple, list)):
                 return type(a)(list(a) + list(b))
             if isinstance(a, (tuple, list)) and isinstance(b, SV):
@@ -306,6 +308,20 @@ class ExprMixin:
         if op == "BitAnd":
             if isinstance(a, SV) and isinstance(a.ty, TSet):
                 return a.inter(self.as_set(b, a.ty))
+        if op in ("BitAnd", "BitOr") and all((isinstance(x, SV) and x.ty == TInt) or (isinstance(x, int) and not isinstance(x, bool)) for x in (a, b)):
+            # bit operations on mathematical integers: an uninterpreted function with the facts that hold for every
+            # pair of non-negative operands (recorded in extraction_drops: no bit-level reasoning)
+            from .specfn import ufn
+
+            f = ufn("int_bitand" if op == "BitAnd" else "int_bitor", z3.IntSort(), z3.IntSort(), z3.IntSort())
+            ai, bi = lift(a, TInt), lift(b, TInt)
+            r = SV(f(ai.t, bi.t), TInt)
+            if op == "BitAnd":
+                self.st.pc.append(z3.Implies(z3.And(ai.t >= 0, bi.t >= 0), z3.And(r.t >= 0, r.t <= ai.t, r.t <= bi.t)))
+            else:
+                self.st.pc.append(z3.Implies(z3.And(ai.t >= 0, bi.t >= 0), z3.And(r.t >= ai.t, r.t >= bi.t, r.t <= ai.t + bi.t)))
+            self.res.drops.add("bit operations on integers are uninterpreted (bounds only)")
+            return r
         if op == "Div":
             ar, br = lift(a, TReal), lift(b, TReal)
             self.oblige("divzero", ~(br == 0), node)
@@ -315,7 +331,8 @@ class ExprMixin:
             self.oblige("divzero", ~(bi == 0), node)
             if isinstance(b, int) and b > 0:
                 return SV(ai.t / bi.t, TInt)
-            raise Unsupported("floor division by a symbolic divisor")
+            # symbolic divisor: floor(a / b) = a div b for b > 0 and (-a) div (-b) for b < 0 (SMT-LIB div floors for positive divisors)
+            return SV(z3.If(bi.t > 0, ai.t / bi.t, (-ai.t) / (-bi.t)), TInt)
         if op == "Mod":
             if isinstance(b, int) and b > 0 and isinstance(a, SV) and a.ty == TInt:
                 return SV(a.t % b, TInt)
@@ -609,6 +626,19 @@ class ExprMixin:
                 return True
         raise Unsupported(f"truth value of {v!r}")
 
+    def list_concat(self, a, b):
+        """a + b for two symbolic lists: a fresh list characterised pointwise (and through its element set)"""
+        from . import specfn
+
+        r = a.ty.fresh("lcat")
+        la, lb = a.length().t, b.length().t
+        i = z3.Int(f"i!cat{self.fresh_id()}")
+        self.st.pc.append(r.length().t == la + lb)
+        self.st.pc.append(z3.ForAll([i], z3.Implies(z3.And(i >= 0, i < la), r[SV(i, TInt)].t == a[SV(i, TInt)].t), patterns=[r[SV(i, TInt)].t]))
+        self.st.pc.append(z3.ForAll([i], z3.Implies(z3.And(i >= la, i < la + lb), r[SV(i, TInt)].t == b[SV(i - la, TInt)].t), patterns=[r[SV(i, TInt)].t]))
+        self.st.pc.append(specfn.list_elems(r).t == z3.SetUnion(specfn.list_elems(a).t, specfn.list_elems(b).t))
+        return r
+
     def _extern_dunder(self, ty, name):
         from .source import ClassDef, Extern
 
@@ -876,6 +906,20 @@ class ExprMixin:
             if not self.branch(obj.contains(k)):
                 raise RaiseEx("KeyError", None, t)
             self.assign(t.value, obj.ty.mk(z3.SetDel(obj.ty.dom(obj).t, k.t), obj.ty.arr(obj)))
+            return
+        if isinstance(obj, SV) and isinstance(obj.ty, TOMap):
+            # del d[k] on an insertion-ordered dict: a fresh dict without k, every other key with its value; the ORDER of
+            # the remaining keys is left unspecified (over-approximation: Python keeps it)
+            k = self._elem(idx, obj.ty.key)
+            if not self.branch(self.omap_dom(obj).contains(k)):
+                raise RaiseEx("KeyError", None, t)
+            new = obj.ty.fresh("deld")
+            self.st.pc.append(self.omap_wf(new).t)
+            self.st.pc.append((self.omap_dom(new) == self.omap_dom(obj) - self.omap_dom(obj).ty.empty().add(k)).t)
+            x = z3.Const(f"x!del{self.fresh_id()}", obj.ty.key.sort())
+            xs = SV(x, obj.ty.key)
+            self.st.pc.append(z3.ForAll([x], z3.Implies(self.omap_dom(new).contains(xs).t, obj.ty.at(new, xs).t == obj.ty.at(obj, xs).t)))
+            self.assign(t.value, new)
             return
         if isinstance(obj, SV) and isinstance(obj.ty, (TRef, TRec)):
             m = self.find_method_for_type(obj.ty, "__delitem__")
